@@ -27,7 +27,7 @@ def main():
     if not os.path.exists(diff):
         print('missing', diff)
         return 2
-    env = {'PYTHONPATH': wt, 'OMP_NUM_THREADS': '1', 'OPENBLAS_NUM_THREADS': '1', 'MKL_NUM_THREADS': '1'}
+    env = {'PYTHONPATH': wt, 'PYTHONHASHSEED': '0', 'OMP_NUM_THREADS': '1', 'OPENBLAS_NUM_THREADS': '1', 'MKL_NUM_THREADS': '1'}
     sh('git checkout -- pyerrors', wt)
     rc_c, out_c = sh('/venv/bin/python %s 2>/dev/null' % eq, wt, env) if os.path.exists(eq) else (None, '')
     rc, out = sh('git apply %s' % diff, wt)
